@@ -16,7 +16,7 @@ from vmm.ref import searchlib as L
 
 ID = 'C10'
 RULE = ('RuleBasedStateMachine histories over the public API of one TBRMatchedMarkets object built from a drawn (panel <=5 geos, '
-        'eligibility, parameters) spec: geos_over_budget, geos_too_large, geos_must_include, geos_within_constraints, '
+        'eligibility, parameters) spec (half of the >=4-geo specs with two control-only geos carrying identical series, i.e. exactly tied designs): geos_over_budget, geos_too_large, geos_must_include, geos_within_constraints, '
         'geo_assignments, treatment_group_size_range, count_max_designs, treatment_group_generator(n), '
         'control_group_generator(T), design_within_constraints(T, C), exhaustive_search, greedy_search, search_results. '
         'Each answer (or exception type) is compared with the same call on a freshly built object; parameters / frame / '
@@ -78,6 +78,7 @@ class Runner:
     self.query_after_search = False
     self.last_search = None
     self.dead = False
+    self.tied = False
     self.df0 = self.case.df.copy(deep=True)
     self.el0 = None if self.case.elig_df is None else self.case.elig_df.copy(deep=True)
     try:
@@ -146,6 +147,9 @@ class Runner:
       self.searches += 1
       if got[0] == 'ok':
         self.last_search = kind
+        scores = [tuple(d['score']) for d in got[1]]
+        if len(set(scores)) < len(scores):
+          self.tied = True
     elif kind == 'search_results':
       self.retrievals += 1
     elif self.searches:
@@ -176,6 +180,10 @@ class Runner:
       cls.append('query-after-search')
     if self.dead:
       cls.append('input-rejected')
+    if self.tied:
+      cls.append('exactly-tied-designs-returned')
+    if self.spec['base']['panel'].get('copy'):
+      cls.append('twin-geos')
     return {'viol': list(self.viol[:3]), 'nt': nt, 'cls': cls, 'dc': 0}
 
 
@@ -214,6 +222,16 @@ def machine(tier, sink):
                                G.search_spec(max_geos=max_geos, min_geos=3, constraint_p=0.2, elig_style='mixed', max_dates=16)))
     def init(self, base):
       base['params']['n_designs'] = min(base['params']['n_designs'], 10)
+      ids = base['panel']['ids']
+      if len(ids) >= 4 and base['panel']['perm_seed'] % 2 == 1:
+        # twin geos (bit-identical series) that may only serve as controls: designs differing in the twin tie exactly
+        i, j = base['panel']['perm_seed'] % len(ids), (base['panel']['perm_seed'] // 7) % (len(ids) - 1)
+        j = j if j < i else j + 1
+        base['panel']['copy'] = [[i, j]]
+        rows = [] if base['elig'] is None else [r for r in base['elig']['rows'] if r[0] not in (ids[i], ids[j])]
+        rows += [[ids[i], 1, 0, 1], [ids[j], 1, 0, 1]]
+        base['elig'] = dict(base['elig'] or {'as_index': False, 'style': 'twins', 'col_order': None, 'row_labels': None}, rows=rows)
+        base['params']['n_designs'] = max(5, base['params']['n_designs'])
       if len(base['panel']['ids']) >= 4 and base['panel']['perm_seed'] % 3 == 0:
         base['params']['n_geos_max'] = 2 + base['panel']['perm_seed'] % 2      # a binding cap on the geos admitted
       self.r = Runner(base)
